@@ -73,15 +73,24 @@ Log(k, p, x) ==
                         stored |-> Accepts(st, e, now), sent |-> 1]
             /\ UNCHANGED now
 
-(* Merge(b): one broadcast per entry that changed the state *)
+(* Merge(b): one broadcast per entry that changed the state - unless the     *)
+(* message is oversized (cluster.OversizedMessage: larger than half a       *)
+(* gossip packet): then it is merged but not gossiped further.              *)
 Merge(B) ==
   /\ DistinctKeys(B)
-  /\ LET n == Cardinality({e \in B : Accepts(st, e, now)})
+  /\ LET n == IF \E e \in B : e.d = "big" THEN 0 ELSE Cardinality({e \in B : Accepts(st, e, now)})
      IN /\ st' = MergeBatch(st, B, now)
         /\ top' = Note(top, B)
         /\ bcast' = bcast + n
         /\ last' = [op |-> "merge", b |-> B, sent |-> n]
   /\ UNCHANGED now
+
+(* A pipeline stage queries an entry, builds its working nflog.Store from it *)
+(* and modifies that, but never logs (the delivery failed): the log is      *)
+(* unchanged.                                                               *)
+Tamper(k) ==
+  /\ last' = [op |-> "tamper", k |-> k, found |-> k \in DOMAIN st]
+  /\ UNCHANGED <<now, st, top, bcast>>
 
 GC ==
   LET D == {k \in DOMAIN st : Collectable(st[k], now)}
